@@ -35,7 +35,11 @@ def geometry(c):
 def cutoff_for(cc, lam, gpts, extent):
     dax, day = lam / extent[0] * 1e3, lam / extent[1] * 1e3          # mrad per pixel
     nyq = min(dax * (gpts[0] // 2), day * (gpts[1] // 2))
-    return {"sub_pixel": 0.4 * min(dax, day), "one_pixel": 1.0 * max(dax, day), "mid": 0.45 * nyq, "mid_b": 0.53 * nyq, "near_nyquist": 0.93 * nyq}[cc]
+    # largest on-axis angle (the Nyquist pixel row / column) and the corner of the grid
+    ax_max = max(dax * (gpts[0] // 2), day * (gpts[1] // 2))
+    corner = float(np.hypot(dax * (gpts[0] // 2), day * (gpts[1] // 2)))
+    return {"sub_pixel": 0.4 * min(dax, day), "one_pixel": 1.0 * max(dax, day), "mid": 0.45 * nyq, "mid_b": 0.53 * nyq, "near_nyquist": 0.93 * nyq,
+            "beyond_axis_nyquist": 0.5 * (ax_max + corner) + 0.3 * max(dax, day)}[cc]
 
 
 def build(kind, energy, extent, gpts, cutoff, soft, spread, ab):
